@@ -1,6 +1,7 @@
 package main
 
 import (
+	"encoding/base64"
 	"encoding/json"
 	"fmt"
 	"os"
@@ -236,7 +237,8 @@ func randCreated(r *common.Rand) string {
 
 var annKeys = []string{"k", "k1", "k.", "org.example.key", "", "a b", "üñï", "io.verif/x", "org.opencontainers.image.source",
 	"org.opencontainers.image.ref.name"}
-var annVals = []string{"", "v", "hello world", "\"quoted\"", "<a&b>", "line1\nline2", "☃", "{}", "2006-01-02T15:04:05Z", "a=b;c:d,e"}
+var annVals = []string{"", "v", "hello world", "\"quoted\"", "<a&b>", "line1\nline2", "☃", "{}", "2006-01-02T15:04:05Z", "a=b;c:d,e",
+	"tab\there\r\b\f", "back\\slash/\x01\x1f\x7f", "sep\u2028and\u2029", "😀 é \uFFFD", "</script>"}
 
 func randAnn(r *common.Rand, fn string, allowCreated bool) map[string]string {
 	switch r.Intn(4) {
@@ -298,9 +300,15 @@ func randBlob(r *common.Rand, sp *spec, mt string, backed bool) ocispec.Descript
 	}
 	if r.Chance(1, 8) {
 		d.URLs = []string{"https://example.com/" + longName(r, 4)}
+		if r.Bool() {
+			d.URLs = append(d.URLs, "", "https://example.com/?a=1&b=<2>")
+		}
 	}
 	if r.Chance(1, 10) {
 		d.Platform = &ocispec.Platform{Architecture: "amd64", OS: "linux"}
+		if r.Bool() {
+			d.Platform = &ocispec.Platform{Architecture: "arm64", OS: "windows", OSVersion: "10.0.17763", OSFeatures: []string{"win32k", "a\"b"}, Variant: "v8"}
+		}
 	}
 	if r.Chance(1, 10) {
 		d.ArtifactType = "application/vnd.example.at"
@@ -517,6 +525,7 @@ func enumFileTitles() {
 // ---------------------------------------------------------------- json string coercion
 
 func utf8Case(s string) {
+	jsonStringCase(s)
 	id := run.NewID()
 	js, err := json.Marshal(s)
 	var back string
@@ -534,6 +543,25 @@ func utf8Case(s string) {
 	} else {
 		run.Count("utf8_unchanged")
 	}
+}
+
+// jsonStringCase: json.Marshal of a Go string (escaping, coercion) against json_string of the model;
+// base64Case: base64.StdEncoding (the []byte Data field) against base64 of the model.
+func jsonStringCase(s string) {
+	id := run.NewID()
+	js, err := json.Marshal(s)
+	obs := common.Hex(string(js))
+	if err != nil {
+		obs = "ERR"
+	}
+	run.Case(id, "J "+common.Hex(s), obs)
+	run.Count("json_string")
+	if len(js) != len(s)+2 {
+		run.Nontrivial("J:" + s)
+	}
+	id = run.NewID()
+	run.Case(id, "B "+common.Hex(s), common.Hex(base64.StdEncoding.EncodeToString([]byte(s))))
+	run.Count("base64")
 }
 
 func genUTF8() {
@@ -563,6 +591,10 @@ func genUTF8() {
 			}
 		}
 		utf8Case(string(b))
+	}
+	for c := 0; c < 256; c++ {
+		utf8Case("a" + string([]byte{byte(c)}) + "z")
+		utf8Case(string([]byte{byte(c)}))
 	}
 	for _, s := range []string{"é☃😀", "\xf0\x9f\x98", "\xf4\x90\x80\x80", "\xe0\x9f\xbf", "\xed\x9f\xbf", "\xed\xa0\x80", "\xef\xbf\xbd", "\u2028<>&"} {
 		utf8Case(s)
@@ -718,7 +750,7 @@ func main() {
 				}
 				sp.decodeHex()
 				packCase(&sp)
-			case "U":
+			case "U", "J", "B":
 				utf8Case(common.UnHex(c["hex"]))
 			case "L":
 				parseCase(common.UnHex(c["hex"]))
@@ -745,7 +777,7 @@ func floors() {
 		"target_registry": 50, "target_oci+exists": 50, "target_file+exists": 50, "target_registry+exists": 50, "copy_checked": 300,
 		"determinism_checked": 300, "registry_validating": 50, "file_named_blob": 50, "file_titled_config": 30, "file_titled_manifest": 10, "file_duplicate_name": 20, "enumerated_file_titles": 200, "prefilled": 300, "non_utf8_input": 50, "sha512_descriptor": 50, "config_empty_media_type": 10,
 		"enumerated": 1000, "enumerated_faults": 1000, "time_accepted": 1000, "parse_accepted": 1000, "parse_rejected": 1000, "time_rejected": 1000, "mediatype_valid": 1000,
-		"mediatype_invalid": 1000, "utf8_coerced": 500, "utf8_unchanged": 100}
+		"mediatype_invalid": 1000, "utf8_coerced": 500, "json_string": 1000, "base64": 1000, "utf8_unchanged": 100}
 	var low []string
 	for k, n := range want {
 		if run.Dist[k] < n {
